@@ -576,4 +576,99 @@ Section Parse.
       split; auto. apply ascendingb_spec. exact X.
     - clear - Hf. unfold sub_toks in Hf. fuel_tac.
   Qed.
+
+  (* ---- GSUB4 ---- *)
+  Definition lig_ok (p : N * (list N * N)) : Prop :=
+    gids_ok F (fst p :: fst (snd p)) = true /\ snd (snd p) < num_glyphs F.
+
+  Lemma seq4_toks_false : forall e mm l,
+    seq4_toks U F (e :: mm) false l = t_comma l :: seq4_toks U F (e :: mm) true l.
+  Proof. intros [k [c o]] mm l. reflexivity. Qed.
+
+  Lemma gl_toks_head : forall g gs l, exists t ts, gl_toks U F (g :: gs) l = t :: ts /\ after_flags t = true.
+  Proof.
+    intros g gs l. destruct gs as [|g' gs].
+    - cbn. eexists. eexists. split; [reflexivity|apply after_flags_glyph_tok].
+    - unfold gl_toks. cbv beta iota. destruct (forallb _ _).
+      + eexists. eexists. split; [reflexivity|reflexivity].
+      + cbn [map]. eexists. eexists. split; [reflexivity|apply after_flags_name_tok].
+  Qed.
+
+  Lemma gsub4_loop_ok : forall mm l fuel data t0 rest,
+    mm <> [] -> Forall lig_ok mm -> ends_list t0 = true ->
+    (length (seq4_toks U F mm true l ++ t0 :: rest) < fuel)%nat ->
+    gsub4_loop F endl fuel data (seq4_toks U F mm true l ++ t0 :: rest) = POk (data ++ mm, t0 :: rest).
+  Proof.
+    induction mm as [|[key [comps out]] mm IH]; intros l fuel data t0 rest Hn Hm Ht Hf; [congruence|].
+    destruct fuel as [|f]; [cbn in Hf; lia|].
+    destruct (ends_list_props _ Ht) as (Hstop & Hnc & Hne).
+    inversion Hm as [|? ? Hk Hmm]; subst. destruct Hk as [Hk Ho]. cbn [fst snd] in Hk, Ho.
+    cbn [seq4_toks app gsub4_loop]. rewrite <- !app_assoc. cbn [app].
+    unfold bind at 1.
+    rewrite (rgl_gl (key :: comps) l (S f) (t_arrow l)); auto;
+      [|clear - Hf; cbn [seq4_toks] in Hf; fuel_tac].
+    unfold bind at 1. rewrite required_hit by reflexivity.
+    unfold bind at 1.
+    destruct f as [|f]; [exfalso; clear - Hf; cbn [seq4_toks] in Hf; fuel_tac|].
+    destruct mm as [|e' mm'].
+    - cbn [seq4_toks app]. rewrite rgl_one by auto.
+      unfold bind at 1. rewrite optional_miss by auto. reflexivity.
+    - rewrite seq4_toks_false. cbn [app]. rewrite rgl_one by (auto; reflexivity).
+      unfold bind at 1. rewrite optional_hit by reflexivity.
+      unfold bind at 1.
+      assert (Hopt : forall ts, optional endl TEOL (seq4_toks U F (e' :: mm') true l ++ ts)
+                                = POk (false, seq4_toks U F (e' :: mm') true l ++ ts)).
+      { intros ts. destruct e' as [k' [c' o']]. cbn [seq4_toks app].
+        destruct (gl_toks_head k' c' l) as (t & tt' & E & A). rewrite E. cbn [app].
+        destruct (after_flags_props _ A) as [A1 A2]. apply optional_miss; auto. }
+      rewrite Hopt.
+      replace (data ++ (key, (comps, out)) :: e' :: mm') with ((data ++ [(key, (comps, out))]) ++ e' :: mm')
+        by (rewrite <- app_assoc; reflexivity).
+      apply IH; auto; [discriminate|].
+      clear - Hf. destruct e' as [k' [c' o']]. cbn [seq4_toks] in *. fuel_tac.
+  Qed.
+
+  Lemma read_gsub4_ok : forall cov repl fl l fuel t0 rest,
+    flags_ok fl = true -> sub_wf F (Gsub4_1 cov repl) = true -> ends_list t0 = true ->
+    (length (flag_toks fl l ++ sub_toks U F (Gsub4_1 cov repl) l ++ t0 :: rest) < fuel)%nat ->
+    read_gsub4 F endl fuel (tk TColon [58] l :: flag_toks fl l ++ sub_toks U F (Gsub4_1 cov repl) l ++ t0 :: rest)
+    = POk (mkLookup 4 fl [Gsub4_1 cov repl], t0 :: rest).
+  Proof.
+    intros cov repl fl l fuel t0 rest Hfl W Ht Hf. cbn [sub_wf] in W. split_wf W.
+    assert (Ha : ascending cov) by (apply ascendingb_spec; assumption).
+    assert (Hc : Forall (fun g => g < num_glyphs F) cov) by (apply gids_ok_forall; assumption).
+    assert (Hl : length cov = length repl) by (apply Nat.eqb_eq; assumption).
+    assert (Hn : cov <> []) by (destruct cov; [discriminate|congruence]).
+    match goal with Hx : forallb _ repl = true |- _ => apply forallb_Forall in Hx; rename Hx into W0 end.
+    assert (Hne : Forall (fun r => r <> []) repl).
+    { eapply Forall_impl; [|exact W0]. cbn. intros a Hx. apply andb_true_iff in Hx. destruct Hx as [X _].
+      destruct a; [discriminate|congruence]. }
+    unfold read_gsub4, sub_toks in *. fold (groups cov repl) in *.
+    rewrite stable_sort_sorted in * by (apply ss_groups; exact Ha).
+    assert (Hgn : exists e mm, groups cov repl = e :: mm).
+    { destruct cov as [|g cov']; [congruence|]. destruct repl as [|r repl']; [discriminate|].
+      inversion Hne; subst. destruct r as [|b r']; [congruence|]. rewrite groups_cons. cbn. eauto. }
+    destruct Hgn as (e & mm & Eg).
+    unfold bind at 1. rewrite header_ok'; auto; [| |clear - Hf; fuel_tac].
+    2:{ rewrite Eg. destruct e as [k [c o]]. cbn [seq4_toks app].
+        destruct (gl_toks_head k c l) as (t & tt' & E & A). rewrite E. cbn [app]. eauto. }
+    unfold bind at 1.
+    rewrite (gsub4_loop_ok (groups cov repl) l fuel [] t0 rest); auto.
+    - cbn [app]. unfold ret, build_cov. destruct (groups_keys cov repl Ha Hl Hne) as [K1 K2].
+      rewrite K1, K2. rewrite ligs_of_groups by auto. reflexivity.
+    - rewrite Eg. discriminate.
+    - apply Forall_forall. intros [key [comps out]] Hin. unfold groups in Hin.
+      apply in_concat in Hin. destruct Hin as (grp & Hgrp & Hin). apply in_map_iff in Hgrp.
+      destruct Hgrp as ([k ls] & E & Hcb). subst grp. cbn [fst snd] in Hin.
+      apply in_map_iff in Hin. destruct Hin as (lg & E & Hlg). inversion E; subst; clear E.
+      pose proof (in_combine_l _ _ _ _ Hcb) as Hk. pose proof (in_combine_r _ _ _ _ Hcb) as Hls.
+      rewrite Forall_forall in Hc, W0. specialize (Hc _ Hk). specialize (W0 _ Hls). cbn in W0.
+      apply andb_true_iff in W0. destruct W0 as [_ W0]. rewrite forallb_forall in W0.
+      specialize (W0 _ Hlg). apply andb_true_iff in W0. destruct W0 as [Wa Wb].
+      cbn [fst snd] in Wa, Wb.
+      split; cbn [fst snd]; [|lia]. unfold gids_ok in *. cbn [forallb]. rewrite Wa.
+      assert (E : (key <? num_glyphs F) = true) by lia.
+      rewrite E. reflexivity.
+    - clear - Hf. fuel_tac.
+  Qed.
 End Parse.
